@@ -56,6 +56,7 @@ profile('setup-server', PP.gen_setup_server)
 
 profile('reconnect', XR.gen_reconnect)
 profile('reconnect-lease', XR.gen_reconnect_lease)
+profile('reconnect-connfail', XR.gen_reconnect_connfail)
 profile('reconnect-sweep', XR.gen_reconnect, sweep='reconnect', max_points=400)
 
 profile('hostile', PH.gen_hostile)
@@ -120,7 +121,8 @@ CHECKS = {
     'C15': {'profiles': [('keepalive', 8000, 300000)], 'oracles': [PP.oracle_c15], 'level': 'exploration'},
     'C16': {'profiles': [('setup-client', 8000, 300000), ('setup-server', 4000, 150000)],
             'oracles': [PP.oracle_c16], 'level': 'exploration'},
-    'C17': {'profiles': [('reconnect', 6000, 200000), ('reconnect-sweep', 16, 600)], 'oracles': [XR.oracle_c17], 'level': 'exploration'},
+    'C17': {'profiles': [('reconnect', 6000, 200000), ('reconnect-connfail', 2000, 60000), ('reconnect-sweep', 16, 600)],
+            'oracles': [XR.oracle_c17], 'level': 'exploration'},
     'C12': {'profiles': [('hostile', 12000, 400000), ('buggify', 3000, 100000)],
             'oracles': {'hostile': [PH.oracle_c12_hostile], 'buggify': [PH.oracle_c12_buggify]}, 'level': 'exploration'},
     'C19': {'profiles': [('routing', 10000, 300000)], 'oracles': [XRT.oracle_c19], 'level': 'exploration'},
@@ -343,7 +345,7 @@ MANIFEST_TEXT.update({
                     'on_close, on_keepalive_timeout or the script. Oracle: old transport closed, pending failed, one new transport per request, '
                     'fresh SETUP first, ids from 1, keepalives resume, probes (client- and server-initiated) served with the right payload, '
                     'on_close once per ended connection. Variants: servers that fragment with links cut at a byte offset inside a fragmented '
-                    'frame, transports whose connect() suspends, leases; plus fault-point enumeration of the reconnect moment: a base scenario '
+                    'frame, transports whose connect() suspends or fails (dial refused, reconnect asked from on_connection_error), leases; plus fault-point enumeration of the reconnect moment: a base scenario '
                     're-run with reconnect() requested at every loop iteration in turn (stride-subsampled above a cap).',
             'note': 'reconnect requests are spaced so that each yields exactly one new transport'},
     'C19': {'text': 'exploration (narrow claim): PRNG route tables on the library\'s RoutingRequestHandler with recording coroutines, requests of '
